@@ -24,9 +24,10 @@ Record ccase : Type := mkCase {
   k_tdefs : list tdef;
   k_tool_list : option (list tdef); (* call option compose.WithToolList: the tools of the tools node for this call *)
   k_fail_args : list string;       (* a tool called with one of these argument strings fails *)
-  k_outs : list (string * list string); (* a tool called with this argument string streams these chunks (>= 1, any of
-                                      them empty) and returns their concatenation when invoked; any other argument
-                                      string: name(args), streamed as name, "(", args, ")" *)
+  k_outs : list (string * list string * bool); (* a tool called with this argument string streams these chunks (>= 1, any
+                                      of them empty) and returns their concatenation when invoked - or, flag set,
+                                      ends its stream with an error item after them and fails when invoked; any
+                                      other argument string: name(args), streamed as name, "(", args, ")" *)
   k_handler : bool;                (* UnknownToolsHandler configured (answers "unk:name:args") *)
   k_rd : list string;              (* ToolReturnDirectly *)
   k_max_step : nat;                (* AgentConfig.MaxStep (0 = default) *)
@@ -44,19 +45,21 @@ Record ccase : Type := mkCase {
 Fixpoint mem_str (s : string) (l : list string) : bool :=
   match l with [] => false | x :: r => String.eqb s x || mem_str s r end.
 
-Fixpoint out_lookup (outs : list (string * list string)) (args : string) : option (list string) :=
+Fixpoint out_lookup (outs : list (string * list string * bool)) (args : string) : option (list string * bool) :=
   match outs with
   | [] => None
-  | (a, cs) :: r => if String.eqb a args then Some cs else out_lookup r args
+  | (a, cs, late) :: r => if String.eqb a args then Some (cs, late) else out_lookup r args
   end.
 
-Definition h_chunks (outs : list (string * list string)) (name args : string) : list string :=
-  match out_lookup outs args with Some cs => cs | None => [name; "("; args; ")"] end.
+Definition h_chunks (outs : list (string * list string * bool)) (name args : string) : list string * bool :=
+  match out_lookup outs args with Some p => p | None => ([name; "("; args; ")"], false) end.
 
-Definition h_inv (fails : list string) (outs : list (string * list string)) (name args : string) : tres :=
-  if mem_str args fails then TErr 100 else TOk (concat_strings (h_chunks outs name args)).
-Definition h_str (fails : list string) (outs : list (string * list string)) (name args : string) : sres :=
-  if mem_str args fails then SErr 100 else SOk (h_chunks outs name args) None.
+Definition h_inv (fails : list string) (outs : list (string * list string * bool)) (name args : string) : tres :=
+  if mem_str args fails then TErr 100
+  else let '(cs, late) := h_chunks outs name args in if late then TErr 100 else TOk (concat_strings cs).
+Definition h_str (fails : list string) (outs : list (string * list string * bool)) (name args : string) : sres :=
+  if mem_str args fails then SErr 100
+  else let '(cs, late) := h_chunks outs name args in SOk cs (if late then Some 100%N else None).
 
 Fixpoint kind_lookup (tools : list tdef) (name : string) : option tkind :=
   match tools with
